@@ -289,16 +289,17 @@ class PS(object):
         p = "Definition P%d : pset := mkps U%d %s %s %d %d %d%%positive.\n" % (
             self.k, self.k, tbl(self.prim_tbl), tbl(self.term_tbl), self.tid[self.pset.ret],
             self.ratio.numerator, self.ratio.denominator)
-        return u + p
+        pairs = ["(%d,%d)" % (i, j) for a, i in self.tid.items() for b, j in self.tid.items() if issubclass(a, b)]
+        sdef = "Definition S%d : list (Z * Z) := %s.\n" % (self.k, clist(pairs))
+        return u + p + sdef
 
     def pset_term(self):
         """Corr term: the _add sequence and the tables it produced"""
-        pairs = ["(%d,%d)" % (i, j) for a, i in self.tid.items() for b, j in self.tid.items() if issubclass(a, b)]
         ops = ["(%s,%d)" % (cbool(isp), self.nid[id(x)]) for x, isp in self.addlog]
 
         def tbl(d):
             return clist(["(%d, %s)" % (self.tid[t], clist(["%d" % self.nid[id(x)] for x in l])) for t, l in d.items()])
-        return "CPset U%d %s %s %s %s %d %d" % (self.k, clist(pairs), clist(ops), tbl(self.prim_tbl), tbl(self.term_tbl),
+        return "CPset U%d S%d %s %s %s %d %d" % (self.k, self.k, clist(ops), tbl(self.prim_tbl), tbl(self.term_tbl),
                                               self.pset.terms_count, self.pset.prims_count)
 
     def table_problems(self):
@@ -549,6 +550,33 @@ def main(run):
     def root_type(ps, tree):
         return ps.pset.ret
 
+    wt_budget = [run.scale(1500, 8000)]
+
+    def wt_case(ps, nodes, expected, force=False):
+        """the theorem vocabulary (complete / well typed at `expected`) evaluated by Coq on this very list
+        must agree with the independent checker used by the oracle"""
+        if not force:
+            if wt_budget[0] <= 0 or len(nodes) > 80 or rng.random() < 0.5:
+                return
+        wt_budget[0] -= 1
+        probs = structure_problems(gp, nodes, expected)
+        oc = not any(("incomplete" in p_) or ("orphan" in p_) or ("empty" in p_) for p_ in probs)
+        case = {"kind": "wt", "pset": ps.k, "tree": names(ps, nodes), "expected": expected.__name__, "observed": [oc, not probs]}
+        emit(ps, "CWt U%d S%d %d %s %s %s" % (ps.k, ps.k, ps.tid[expected], clit(ps.lit(nodes)), cbool(oc), cbool(not probs)), case,
+             len(nodes) > 1)
+
+    def wt_corrupted(ps, nodes, expected):
+        nodes = list(nodes)
+        if len(nodes) > 1:
+            wt_case(ps, nodes[:rng.randint(1, len(nodes) - 1)], expected, force=True)
+            wt_case(ps, nodes + [nodes[-1]], expected, force=True)
+        i = rng.randrange(len(nodes))
+        cands = [x for x in ps.universe if not ps.is_eph_class(x) and x.arity == nodes[i].arity and x is not nodes[i]]
+        if cands:
+            wt_case(ps, nodes[:i] + [rng.choice(cands)] + nodes[i + 1:], expected, force=True)
+        for t_ in list(ps.tid)[:3]:
+            wt_case(ps, nodes, t_, force=True)
+
     # ---------------------------------------------------------------- generators
     GENS = {"full": gp.genFull, "grow": gp.genGrow, "half": gp.genHalfAndHalf}
 
@@ -583,6 +611,7 @@ def main(run):
                 if gp.PrimitiveTree(expr).height != h:
                     run.oracle_violation("reported height %d differs from depth of deepest node %d" % (gp.PrimitiveTree(expr).height, h), case)
             lit = ps.lit(expr)
+            wt_case(ps, expr, t_eff)
         term = "CGen U%d P%d %s %s %s %s" % (ps.k, ps.k, cgexpr((kind, mn, mx)),
                                             copt(None if type_ is None else ps.tid[type_], lambda v: "%d" % v),
                                             cdraws(ps, log), coutcome(out if lit is None else ("ok", lit), clit))
@@ -698,6 +727,8 @@ def main(run):
             res = out[1]
             case["observed"] = [names(ps, t) for t in res]
             lits = [ps.lit(t) for t in res]
+            for t in res:
+                wt_case(ps, t, exp_t)
             if in_ok:
                 for j, t in enumerate(res):
                     probs = structure_problems(gp, t, exp_t)
@@ -810,6 +841,7 @@ def main(run):
             continue
         small = [t for t in pool if len(t) <= 60] or pool
         for t in rng.sample(small, min(len(small), run.scale(4, 10))):
+            wt_corrupted(ps, t, ps.pset.ret)
             search_height_cases(ps, t, all_indices=len(t) <= 40)
             # truncated / extended lists: error branches of searchSubtree and height
             if len(t) > 1:
